@@ -1172,3 +1172,88 @@ def rule_C3b(ctx, prog, label, rule='C3b'):
                   Finding(rule, '%s|%s|dims|%s' % (rule, name, fld), f.loc, name,
                           '%s no longer compares `%s` of both operands before reading rows' % (name, fld), {}, label))
     return rr
+
+
+def rule_C4(ctx, prog, label, rule='C4'):
+    """Raw whole-matrix kernels: `X->data` of a caller's matrix is handed to a function only on paths where
+    `!mzd_is_dangerous_window(X)` holds (destination and source)."""
+    from .cfg import cfg_of
+    rr = RuleResult(rule, 'raw data pointers of caller matrices reach whole-matrix kernels only under !mzd_is_dangerous_window')
+    allowed = {'mzd_init', 'mzd_init_window', 'mzd_free', 'mzd_row', 'mzd_row_const', 'mzd_t_malloc', 'mzd_t_free'}
+    for f in sorted(prog.all_funcs(), key=lambda f: (f.file, f.line)):
+        if f.name in allowed:
+            continue
+        sites = []
+        for c in f.body.find('CallExpr'):
+            for a in c.kids[1:]:
+                a2 = strip(a, casts=True)
+                if a2 is not None and a2.kind == 'MemberExpr' and a2.name == 'data':
+                    b = strip(a2.kids[0], casts=True)
+                    if b.kind == 'DeclRefExpr' and 'mzd_t' in (b.type or ''):
+                        sites.append((c, b))
+        if not sites:
+            continue
+        g = cfg_of(f)
+        fs = FuncSym(f)
+        for (c, b) in sites:
+            rr.instances += 1
+            X = b.ref
+            # local owners (assigned only from mzd_init) need no guard
+            if b.refkind == 'VarDecl':
+                defs = fs.defs.get(b.refid, [])
+                if defs and all(strip(d, casts=True).kind == 'CallExpr' and callee_name(strip(d, casts=True)) == 'mzd_init' for d in defs):
+                    rr.ob(True, dict(function=f.name, call=pp(c)[:60], matrix=X, verdict='local owner'))
+                    continue
+            # reachability from entry without taking the safe edge of a test of mzd_is_dangerous_window(X)
+            target = None
+            for cn in g.nodes:
+                if cn.ast is not None and any(x is c for x in cn.ast.walk()):
+                    target = cn
+            seen = set()
+            st = [g.entry]
+            while st:
+                n = st.pop()
+                if n.id in seen:
+                    continue
+                seen.add(n.id)
+                safe = _danger_safe_edge(n, X) if n.kind == 'branch' else None
+                for (lab, m) in n.succs:
+                    if safe is not None and lab is safe:
+                        continue
+                    st.append(m)
+            ok = target is not None and target.id not in seen
+            rr.ob(ok, dict(function=f.name, call=pp(c)[:60], matrix=X, verdict='only under !mzd_is_dangerous_window(%s)' % X),
+                  Finding(rule, '%s|%s|%s|%s' % (rule, f.name, callee_name(c), X), c.loc, f.name,
+                          '`%s->data` is passed to %s() on a path where %s may be a window with excess bits: the raw kernel reads/writes whole words' % (X, callee_name(c), X),
+                          dict(call=pp(c)[:120]), label))
+    rr.require_floor(3, 'raw data pointer arguments')
+    return rr
+
+
+def _danger_safe_edge(cn, X):
+    """If the branch tests mzd_is_dangerous_window(X) (possibly negated / wrapped), return the label of the
+    edge on which X is NOT dangerous."""
+    c = cn.ast
+    neg = False
+    while True:
+        c = strip(c, casts=True)
+        if c is None:
+            return None
+        if c.kind == 'UnaryOperator' and c.op == '!':
+            neg = not neg
+            c = c.kids[0]
+            continue
+        if c.kind == 'CallExpr' and callee_name(c) == '__builtin_expect':
+            c = c.kids[1]
+            continue
+        if c.kind == 'BinaryOperator' and c.op in ('!=', '==') and int_value(c.kids[1]) == 0:
+            if c.op == '==':
+                neg = not neg
+            c = c.kids[0]
+            continue
+        break
+    if c.kind == 'CallExpr' and callee_name(c) == 'mzd_is_dangerous_window':
+        a = strip(c.kids[1], casts=True)
+        if a.kind == 'DeclRefExpr' and a.ref == X:
+            return True if neg else False
+    return None
